@@ -255,3 +255,34 @@ SPECS["C08"] = {
     "level_note": "trusts the in-harness strict parser and glibc strtod; python3 json.loads cross-checks sampled texts in tools/python_crosscheck.py",
     "assumptions": [],
 }
+
+
+# ---------------------------------------------------------------------------------------------- C15
+def plan_c15(tier, seed):
+    if tier == "quick":
+        return checks("main", 6, 15000) + shards("main", "strings3", 1) + shards("main", "values", 1)
+    return checks("main", 12, 200000) + shards("main", "strings4", 8) + shards("main", "values", 2) + checks("nohook", 2, 100000)
+
+
+SPECS["C15"] = {
+    "builds": {
+        "main": Build("main", "harness/c15_order.cpp"),
+        "nohook": Build("nohook", "harness/c15_order.cpp", hook=False, simd="avx2"),
+    },
+    "default_build": "main",
+    "plan": plan_c15,
+    "exhaustive_enums": ["strings3", "strings4", "values"],
+    "rule": ("(a) enumerated: all pairs over every comparison surface (String, StringView, both against C-strings, StringUtils::IsLess/IsGreater) and all "
+             "triples (transitivity) of the strings over {a,b,c} up to length 3 (quick, 40 strings) / 4 (thorough, 121 strings); all pairs and triples of a "
+             "universe of 34 values of every kind incl. pointer-to-value; (b) generated: triples of longer strings with forced shared prefixes; sorts of "
+             "Array<int>, Array<String>, HArray (with removed members), Value arrays (unsigned/signed/real/strings), Value objects and <loop sort=...> sets, "
+             "sizes 0..39, random / presorted / reversed / many duplicates, ascending and descending; non-trivial = every enumerated tuple, every sort, "
+             "every random triple with two different strings; distinct by tuple / entropy"),
+    "engine": "rapidcheck + complete enumeration",
+    "technique": "complete enumeration of small string and value universes against order axioms and a reference order, plus property-based testing of sorts (ordered-permutation oracle)",
+    "level_text": ("Order axioms (exactly one of <,==,>; <=, >=, != derived; transitivity) and agreement with lexicographic / numeric reference order are checked "
+                   "exhaustively on the stated small universes; sorts are checked on generated inputs for multiset equality, adjacent ordering under the reference "
+                   "relation and intact lookups. Exhaustive for the enumerated universes, sampling beyond."),
+    "level_note": "reference order: unsigned code-unit lexicographic with prefix first (generated units are < 0x80, so signedness of char does not matter)",
+    "assumptions": ["strings compared contain only units below 0x80"],
+}
